@@ -1,6 +1,8 @@
 (* Lemmas about the Python string operations of PyLines.v. *)
 From Coq Require Import List NArith Bool Lia Permutation.
-From MV Require Import Base.PyStr Gen.C08Unicode Dir.PyLines.
+From MV Require Import Base.PyStr.
+From MV Require Import Gen.C08Unicode.
+From MV Require Import Dir.PyLines.
 Import ListNotations.
 Open Scope N_scope.
 
